@@ -109,8 +109,19 @@ def run_history(chk, uni, drv, rng, stats):
             # a suspended instrumented generator (started before this probe existed, perhaps) is advanced
             if uni.gen is None:
                 uni.gen = uni.mod.hgen(10 ** 6)
-            next(uni.gen)
-            hist.append({"op": "advance a suspended generator"})
+                next(uni.gen)
+            how = rng.choice(["next", "next", "close", "drop"])
+            if how == "next":
+                next(uni.gen)
+            elif how == "close":
+                # … or closed / dropped while suspended: whoever does that keeps its context
+                uni.gen.close()
+                uni.gen = None
+            else:
+                uni.gen = None
+                import gc
+                gc.collect()
+            hist.append({"op": "a suspended generator: " + how})
         else:
             f, x = rng.randrange(2), rng.randrange(0, 6)
             hist.append({"op": "call", "f": f, "x": x})
